@@ -15,6 +15,11 @@ package c11
 
 import (
 	"fmt"
+	"go/ast"
+	"go/parser"
+	"go/printer"
+	"go/token"
+	"path/filepath"
 	"strings"
 
 	"github.com/AliceO2Group/Control/core/task"
@@ -334,4 +339,72 @@ func genAlgebra(string) (string, error) {
 	}
 	b.WriteString("]\n\nend Gen\n")
 	return b.String(), nil
+}
+
+// ---- go/ast facts: the merge functions are atomic ------------------------------------------------
+//
+// The sequential theorems of Props/C11.lean speak about the code only if a whole merge (compare,
+// shortcuts, re-aggregation of the children, store) happens under the role's own mutex, so that
+// merges on one role are serialised. These facts are re-extracted on every run.
+
+func genMergeFacts(repo string) (string, error) {
+	fset := token.NewFileSet()
+	var b strings.Builder
+	b.WriteString("namespace Gen\n\n/-- (file, function, first statement locks t.mu, second statement defers the unlock, number of OTHER Lock/Unlock/RLock/RUnlock calls on t.mu in the body, the aggregate function is called inside this body, number of assignments to the guarded field) -/\ndef mergeFacts : List (String × String × Bool × Bool × Nat × Bool × Nat) := [")
+	first := true
+	for _, spec := range [][3]string{{"core/workflow/safestate.go", "aggregateState", "state"}, {"core/workflow/safestatus.go", "aggregateStatus", "status"}} {
+		f, err := parser.ParseFile(fset, filepath.Join(repo, spec[0]), nil, 0)
+		if err != nil {
+			return "", err
+		}
+		for _, d := range f.Decls {
+			fd, ok := d.(*ast.FuncDecl)
+			if !ok || fd.Name.Name != "merge" || fd.Body == nil {
+				continue
+			}
+			str := func(n ast.Node) string { var sb strings.Builder; printer.Fprint(&sb, fset, n); return sb.String() }
+			firstLock, secondDefer := false, false
+			if len(fd.Body.List) >= 2 {
+				firstLock = str(fd.Body.List[0]) == "t.mu.Lock()"
+				secondDefer = str(fd.Body.List[1]) == "defer t.mu.Unlock()"
+			}
+			others, callsAgg, assigns := 0, false, 0
+			ast.Inspect(fd.Body, func(n ast.Node) bool {
+				switch x := n.(type) {
+				case *ast.CallExpr:
+					s := str(x.Fun)
+					if s == "t.mu.Lock" || s == "t.mu.Unlock" || s == "t.mu.RLock" || s == "t.mu.RUnlock" {
+						others++
+					}
+					if s == spec[1] {
+						callsAgg = true
+					}
+				case *ast.AssignStmt:
+					for _, l := range x.Lhs {
+						if str(l) == "t."+spec[2] {
+							assigns++
+						}
+					}
+				}
+				return true
+			})
+			if firstLock {
+				others--
+			}
+			if secondDefer {
+				others--
+			}
+			if !first {
+				b.WriteString(", ")
+			}
+			first = false
+			fmt.Fprintf(&b, "(%q, %q, %v, %v, %d, %v, %d)", spec[0], "merge", firstLock, secondDefer, others, callsAgg, assigns)
+		}
+	}
+	b.WriteString("]\n\nend Gen\n")
+	return b.String(), nil
+}
+
+func init() {
+	fw.RegisterGen(fw.GenFile{Name: "MergeFacts.lean", Make: genMergeFacts})
 }
